@@ -92,12 +92,19 @@ fn exec_clones(out: &mut CaseOut) {
     let m = libhaystack::units::get_unit("m").expect("m");
     let s = libhaystack::units::get_unit("s").expect("s");
     let (m1, m2, s1, w1, w2) = (leak(m), leak(m), leak(s), custom(), custom());
+    // units that share a symbol but differ otherwise (name, scale, quantity, dimensions)
+    let w3: &'static Unit = Box::leak(Box::new(Unit { quantity: Some("custom".into()), ids: vec!["widget_long".into(), "wdg".into()], dimensions: None, scale: 2.0, offset: 0.0 }));
+    let w4: &'static Unit = Box::leak(Box::new(Unit { quantity: None, ids: vec!["widget".into(), "wdg".into()], dimensions: None, scale: 1.0, offset: 0.0 }));
+    let w5: &'static Unit = Box::leak(Box::new(Unit { quantity: Some("custom".into()), ids: vec!["widget".into(), "wdg".into()], dimensions: None, scale: 1.0, offset: 0.5 }));
     let n = |x: f64, u: &'static Unit| Value::Number(Number { value: x, unit: Some(u) });
     let triples: Vec<[Value; 3]> = vec![
         [n(1.0, m), n(1.0, m1), n(1.0, m2)],
         [n(1.0, m1), n(1.0, s1), n(1.0, s)],
         [n(2.5, w1), n(2.5, w2), n(2.5, m)],
         [n(0.0, w1), n(-0.0, w2), n(1.0, w1)],
+        [n(1.0, w1), n(1.0, w3), n(1.0, w4)],
+        [n(1.0, w3), n(1.0, w5), n(1.0, w1)],
+        [n(1.0, w4), n(1.0, w5), n(1.0, w2)],
         [Value::List(vec![n(1.0, m1)]), Value::List(vec![n(1.0, m2)]), Value::List(vec![n(1.0, m)])],
         [
             Value::make_dict(Dict::from_iter([("a".to_string(), n(3.0, w1))])),
@@ -109,7 +116,7 @@ fn exec_clones(out: &mut CaseOut) {
         // content-equal units: the first two of every triple but the second are equal values
         oracles(t, out);
     }
-    for (x, y) in [(&triples[0][0], &triples[0][1]), (&triples[0][1], &triples[0][2]), (&triples[2][0], &triples[2][1]), (&triples[4][0], &triples[4][1]), (&triples[5][0], &triples[5][1])] {
+    for (x, y) in [(&triples[0][0], &triples[0][1]), (&triples[0][1], &triples[0][2]), (&triples[2][0], &triples[2][1]), (&triples[7][0], &triples[7][1]), (&triples[8][0], &triples[8][1])] {
         if x != y {
             out.fail("eq_by_content", format!("Numbers whose units are equal field for field (at different addresses) are not equal: {x:?} vs {y:?}"));
         }
